@@ -4,7 +4,7 @@
     BPMEvents.__post_init__ = the guards of [mk_bpm_events], the accumulation loop data_to_bpm_events of
     track.build_events_from_data = [build_bpm_events], and timestamp_at_tick_no_optimize_return. *)
 From Coq Require Import ZArith List Lia ZifyBool.
-From CP Require Import Base.Prelude Base.Str Base.Cfg Base.Loops Base.Float64 Base.Timedelta Model.Sync
+From CP Require Import Base.Prelude Base.Str Base.Cfg Base.Loops Base.Float64 Base.Timedelta Model.Lines Model.Sync
   Gen.Leaf_tick Gen.Leaf_bpm Tie.Leaf_tick.
 Import ListNotations.
 Open Scope Z_scope.
@@ -80,3 +80,14 @@ Qed.
 Lemma leaf_timestamp_at_tick_no_optimize_return_ok :
   forall B tick, leaf_timestamp_at_tick_no_optimize_return B tick = timestamp_at_tick_no_optimize_return B tick.
 Proof. reflexivity. Qed.
+
+(** Anchors: AnchorEvent.from_parsed_data and the anchor loop of build_events_from_data. *)
+Lemma leaf_anchor_from_parsed_data_ok : forall t us, leaf_anchor_from_parsed_data t us = anchor_from (PAnchor t us).
+Proof. intros t us. unfold leaf_anchor_from_parsed_data, anchor_from, mk_anchor. destruct (td_of_us us); reflexivity. Qed.
+
+Lemma leaf_data_to_anchor_events_ok : forall ds, leaf_data_to_anchor_events ds = mapM anchor_from ds.
+Proof.
+  intro ds. unfold leaf_data_to_anchor_events, anchor_from_py.
+  change (fun data : pdata => anchor_from data) with anchor_from.
+  destruct (mapM anchor_from ds); reflexivity.
+Qed.
